@@ -36,6 +36,9 @@ CHECKS = {
  'C14': ('exploration',
          "Held on the inputs explored: structure-aware and text-level mutants of every bundled YAML definition and of generated workflows, each through the workflow-list / workbook / action-list parsers with validation on and a share through the definition services (create/update with the DB); oracle: accepted or a declared 4xx definition error, never another exception nor a call over the time budget; for accepted definitions the specification rebuilt from its stored dict is equal through the public getters and every member cut out of a workbook text parses to the member written in the workbook.",
          "runtime monitoring: outcome-class / round-trip / slicing monitors on the real parser and service entry points under structure-aware fuzzing, with faulthandler watchdogs for hangs"),
+ 'C15': ('exploration',
+         "Held on the enumerated matrix: projects pA (owner), pB (other, with same-named private resources), pM (member none/pending/accepted/rejected) and admin; every resource type x scope x every DB-API function taking an identifier / name / filter for that type (enumerated by name from mistral.db.v2.api) called under the actor's context, the same through the REST application, the engine entry points taking execution / task / action ids, expression functions evaluated in pB's workflow directly and through the real heartbeat-checker pass; oracle from the statement on results, exceptions and row snapshots; created rows carry the caller's project.",
+         "runtime monitoring: access-table oracle over results and row snapshots of the real DB API / REST app / engine entry points, exhaustive actor x operation matrix"),
  'C16': ('exploration',
          "Held on the enumerated matrix: every exposed controller method found by walking the controller tree is driven through the real WSGI application (resource present / absent): with default rules the first ENFORCE event names the documented rule and no tenant SQL / RPC precedes it; with that rule denied the answer is 403 for admin and member, with no tenant SQL, no RPC and identical table dumps; cross-project listing needs :list:all_projects, scope=public needs :publicize; state guards: every (current state x requested state x description/env) for executions, (state x state x reset) for tasks, every requested state for action executions, DELETE with/without force on every state, judged by the table of the statement.",
          "runtime monitoring: per-request event-order monitor (ENFORCE before SQL/RPC) and no-effect monitor (table dumps) over the real WSGI app, exhaustive request matrix"),
@@ -49,7 +52,8 @@ CHECKS = {
          "Held on the URLs explored: a catalogue of addresses inside/outside the denied networks rendered from their numeric value in every textual form (decimal, octal, hex, short, mixed radix, IPv6 spellings, IPv4-mapped IPv6, zone ids, case), fake-resolver names with single/multiple/mixed answers, schemes, userinfo, ports, parser-differential candidates, under default and operator-modified denied_cidrs / allowed_hosts; validate_url must refuse what the statement demands (ground truth by construction) and an audit-hook egress sanitizer under the real requests stack driven by the real HTTPAction / MistralHTTPAction / WebhookPublisher must never see a connect to a denied address nor a client call for a refused URL.",
          "runtime monitoring: sys.addaudithook egress sanitizer (socket.connect / getaddrinfo) under the real HTTP client + ground-truth-by-construction oracle on validate_url"),
 }
-NOTES = {'C16': "Trusted base: authentication stubbed (identity from X-Project-Id / X-Roles headers), engine replaced by a recording stub answering from the database, request templates written by hand and cross-checked against the walked controller tree.",
+NOTES = {'C15': "Trusted base: fixtures created through services / DB API, identity from context / headers (authentication stubbed). Heartbeat reports and the engine-internal compare-and-swap functions are not tenant-facing and are excluded (see the evidence assumptions).",
+         'C16': "Trusted base: authentication stubbed (identity from X-Project-Id / X-Roles headers), engine replaced by a recording stub answering from the database, request templates written by hand and cross-checked against the walked controller tree.",
          'C17': "Trusted base: recording stub instead of the engine client, keystone trusts stubbed at the boundary (authentication on), virtual clock, croniter for the pattern oracle. Known finding (open): occurrence lost when a processor dies between advancing the trigger and starting the workflow.",
          'C13': "Trusted base: the step driver that replaces the dispatcher / poller threads (due heap entries are popped by the harness; the _dispatcher thread's own waiting logic is not exercised in step mode), virtual clock, sqlite shared connection; the clock is never advanced while a live instance is between looking at a job and deleting it. Legacy scheduler: crash recovery not claimed.",
          'C14': "Trusted base: PyYAML for building the mutants and the expected workbook members, the fingerprint function over public getters. REST entry points are exercised by the C16 harness.",
